@@ -9,7 +9,7 @@ INST = 'proid.app#0000000001'
 GENS = {'g1': (1000.0, 11), 'g2': (2000.0, 12)}     # (st_ctime, st_ino)
 
 STEPS = ['created', 'deleted', 'ready_created', 'ready_deleted', 'restart',
-         'finishes', 'cleanup_done', 'recreated']
+         'finishes', 'cleanup_done', 'recreated', 'finishes_then_restart']
 
 
 def subharnesses(tier):
@@ -215,16 +215,39 @@ def harness(S, spec):
             open(ready, 'w').close()
             mgr._on_modified(ready)
             synced = True
-        elif step == 'finishes':
-            # monitor: container finished on its own
+        elif step in ('finishes', 'finishes_then_restart'):
+            # the container finished on its own: the real monitor action
+            # hands it to cleanup
+            from treadmill import monitor
             S.assume(run != 'none')
             g = 'g' + run[1]
-            open(os.path.join(dirs['apps'], cname[g], 'data', 'exitinfo'),
-                 'w').close()
-            marker[g] = 'exitinfo'
+            with_marker = S.flag('exitinfo_written')
+            if with_marker:
+                open(os.path.join(dirs['apps'], cname[g], 'data', 'exitinfo'),
+                     'w').close()
+                marker[g] = 'exitinfo'
             S.assume(not os.path.lexists(os.path.join(dirs['cleanup'], INST)))
-            fs.replace(os.path.join(dirs['running'], INST),
-                       os.path.join(dirs['cleanup'], INST))
+            S.assume(not os.path.lexists(os.path.join(dirs['cleanup'],
+                                                      cname[g])))
+
+            class _Svc:
+                data_dir = os.path.join(dirs['apps'], cname[g], 'data')
+            monitor.supervisor.open_service = lambda *a, **k: _Svc()
+            monitor.supervisor.control_svscan = lambda *a, **k: None
+            act = monitor.MonitorContainerCleanup(mgr.tm_env, {})
+            act.execute({'id': INST, 'signal': 0, 'return_code': 0})
+            finished_on_own = cname[g]
+            if step == 'finishes_then_restart':
+                # the manager is restarted before cleanup got to it
+                mgr._is_active = False
+                open(ready, 'w').close()
+                mgr._on_modified(ready)
+                synced = True
+                S.reach('resync_while_cleanup_pending')
+                running_now = _links(dirs['running'])
+                S.check('C13:container_that_finished_on_its_own_restarted',
+                        running_now.get(INST) != finished_on_own,
+                        {'running': running_now})
         elif step == 'cleanup_done':
             links = _links(dirs['cleanup'])
             S.assume(bool(links))
